@@ -250,7 +250,9 @@ impl World {
 
     pub fn lp_calculate_gt_reward_ix(&self, owner: Pubkey, lp_mint: Pubkey, controller_index: u64, position_id: u64) -> Instruction {
         let controller = lp_controller(&lp_mint, controller_index);
-        ix(
+        // The accounts struct declares `#[instruction(position_id: u64)]` although the handler takes no
+        // argument: the position id has to follow the (empty) argument block in the instruction data.
+        let mut i = ix(
             LP_PID,
             lp::accounts::CalculateGtReward {
                 global_state: lp_global_state(),
@@ -261,7 +263,9 @@ impl World {
                 owner,
             },
             lp::instruction::CalculateGtReward {},
-        )
+        );
+        i.data.extend_from_slice(&position_id.to_le_bytes());
+        i
     }
 
     pub fn lp_unstake_ix(&self, owner: Pubkey, lp_mint: Pubkey, controller_index: u64, position_id: u64, amount: u64) -> Instruction {
